@@ -8,6 +8,14 @@ NOTE_COMMON = ("Trusted base: go/packages + go/types + go/ssa of golang.org/x/to
                "so a large refactoring can raise an alarm although behaviour is preserved.")
 
 claimed = {
+ "C15": dict(
+   text="Decides the field- and keyword-symmetry clauses of the AFM round trip: fields stored by the reader = fields loaded by the writer and the query methods it calls; every data keyword the writer emits is handled by the reader, connected to the same field, with a numeric verb the reader's parser accepts; all format strings are constants; glyph lines are parsed key by key without layout filters and header lines by their first word. Equality of metrics and second-cycle idempotence are not decided.",
+   technique="static analysis: go/ssa field store/load sets over the call graph, AST extraction of the writer's (keyword, verb, field) and the reader's (keyword, field, parser) tables and their comparison",
+   ref="DESIGN.md §5 C15"),
+ "C19": dict(
+   text="Decides structural clauses of the query methods for both font and metrics types: NumGlyphs/GlyphList .notdef mirror, list names = keys of the glyph map (+ .notdef) only, order keys −1/code/256 with .notdef entries skipped; bounding boxes: guarded min/max updates on the right axis from the right end-point operands, per-point FontMatrix×1000 mapping in the PDF variant, zero rectangle for unknown glyphs; font boxes skip zero boxes and unite; the two PDF width computations use the same scale statements, ×1000 once, product with the advance width, fallbacks. Numerical agreement with an independent recomputation is not decided.",
+   technique="static analysis: AST/type-info structural matching of sibling methods and of guarded-update idioms",
+   ref="DESIGN.md §5 C19"),
  "C14": dict(
    text="Decides the state-machine and table clauses of the PFB decoder: the header guard evaluated for all 65,536 first-two-byte values accepts exactly 0x80 with type 1/2/3 and returns ErrInvalidPFB by identity otherwise; every value the state can take is a label of the state switch; little-endian length; read errors in text/binary states returned unconditionally, binary data via io.ReadFull, only the two-byte end marker tolerated as a short header; lower-case nibble encoder; in-place expansion from the back with the right nibble per parity; leftover state reads nothing; nil error only after the buffer-filling loop. Index bounds of the expansion are C01's obligations. Byte-exact output for every buffer pattern is not decided.",
    technique="static analysis: exhaustive evaluation of the header guard over its 2^16 domain, who-may-store on the state field vs switch labels, canonical symbolic terms, go/ssa def-use for error returns",
